@@ -1,4 +1,5 @@
 import Tibc.Lemmas.MtSupplyWorld
+import Tibc.Lemmas.RelayEditWitness
 /-
   C05 — Multi-token transfers conserve supply across chains.
   PROPERTY THEOREMS ONLY.
@@ -203,5 +204,19 @@ theorem mt_balance_le_supply (ops : List Op) (c : Chain) (cls id : Str) (a : Add
     ((run H Hc World.init ops) c).apps.mt.supply (cls, id) ≤ U64MAX := by
   obtain ⟨A, hA⟩ := mt_supply_conserved H Hc ops c
   exact ⟨hA.bal_le cls id a, hA.2.2.2 cls id⟩
+
+/-- **The cross-chain part of the statement is FALSE of the code** (known finding
+    F-C05-relayedit; root cause C13). In the history `RelayEdit.mtHistory` every step is accepted;
+    9 units are minted on A and 4 of them sent directly to C. At the end `alice` holds 9 units on
+    A again, `carol` holds 4 voucher units on C, and A's escrow is empty: 13 user-held units for 9
+    minted, and vouchers in circulation that nothing backs. (Per chain, supply = sum of balances
+    still holds — `mt_supply_conserved`.) -/
+theorem conservation_fails_under_relay_edit :
+    RelayEdit.results RelayEdit.mtHistory = List.replicate 13 Res.ok ∧
+    (RelayEdit.mtWorld "A").apps.mt.supply ("gold".toList, "bar".toList) = 9 ∧
+    (RelayEdit.mtWorld "A").apps.mt.bal ("gold".toList, "bar".toList, "alice") = 9 ∧
+    (RelayEdit.mtWorld "A").apps.mt.bal ("gold".toList, "bar".toList, mtModAddr) = 0 ∧
+    (RelayEdit.mtWorld "C").apps.mt.bal (ibcClass id "mt/A/C/gold".toList, "bar".toList, "carol") = 4 := by
+  decide
 
 end Tibc.C05
